@@ -422,3 +422,16 @@ def mode_reachable(body, sinks, adt_pat=r"schema::IntrospectionMode$", max_state
                 for n in nxt:
                     work.append((n, fenv))
     return result
+
+
+def constructs_variant(body, adt_pat, variant):
+    """does the body build / reference the given enum variant (aggregate, constant or promoted constant)?"""
+    rx = re.compile(adt_pat)
+    for a in find_aggs(body, adt_pat):
+        if a[1][3] == variant:
+            return True
+    for ps in body.d.get("promos", []):
+        for c in ps:
+            if c.get("variant") == variant and rx.search(c.get("adt", "")):
+                return True
+    return False
